@@ -192,7 +192,24 @@ func runC12(p *an.Prog, r *an.Run, tier string) {
 		if d := setDiff(s2.fields, s1.fields); len(d) > 0 {
 			why = append(why, "fields assigned only by the badger driver: "+strings.Join(d, " "))
 		}
-		r.Check(len(why) == 0, "effects-agree", name, m1.Pos(), "both drivers "+setString(s1.effects)+" "+setString(s1.fields), "the drivers' %s differ in what they touch — %s (memory %s%s, badger %s%s)", name, strings.Join(why, "; "), setString(s1.effects), setString(s1.fields), setString(s2.effects), setString(s2.fields))
+		// differences made up only of auxiliary state the key-space model does not know (a secondary index, a cache) are
+		// reported as undecided: whether such a copy is kept in step with the records it mirrors on every transition is
+		// not something this analysis can establish (a correct index and one that forgets a transition look alike)
+		onlyAux := len(why) > 0
+		for _, e := range append(setDiff(s1.effects, s2.effects), setDiff(s2.effects, s1.effects)...) {
+			if !strings.Contains(e, "?mem:") && !strings.Contains(e, "?badger:") {
+				onlyAux = false
+			}
+		}
+		if len(setDiff(s1.fields, s2.fields))+len(setDiff(s2.fields, s1.fields)) > 0 {
+			onlyAux = false
+		}
+		if onlyAux {
+			r.Undec("effects-agree", name, m1.Pos(), "a driver keeps auxiliary state beside the contract's records in %s — %s: its consistency with those records on every transition (re-link, removal, expiry) cannot be decided statically", name, strings.Join(why, "; "))
+			why = nil
+		} else {
+			r.Check(len(why) == 0, "effects-agree", name, m1.Pos(), "both drivers "+setString(s1.effects)+" "+setString(s1.fields), "the drivers' %s differ in what they touch — %s (memory %s%s, badger %s%s)", name, strings.Join(why, "; "), setString(s1.effects), setString(s1.fields), setString(s2.effects), setString(s2.fields))
+		}
 
 		why = nil
 		if d := setDiff(s1.sentinels, s2.sentinels); len(d) > 0 {
